@@ -110,8 +110,69 @@ def call_origin(fn, t, depth, seen, maxdepth):
     args = tuple(origin(fn, a, depth + 1, seen, maxdepth) for a in t.get("args", []))
     if f:
         res = f.get("res") or {}
+        inl = _inline_self_accessor(fn, res.get("id") or f.get("id"), args, depth)
+        if inl is not None:
+            return inl
         return ("call", res.get("path") or f["path"], args, f.get("self_ty"), f.get("full"))
     return ("callind", origin(fn, t["func"], depth + 1, seen, maxdepth), args)
+
+
+_ACCESSOR_TERMS = {}
+INLINE_ACCESSORS = True
+
+
+class no_inlining:
+    """with terms.no_inlining(): ...  - origin terms keep calls to local accessors as calls (for rules that look for the callee)"""
+    def __enter__(self):
+        global INLINE_ACCESSORS
+        self.prev = INLINE_ACCESSORS
+        INLINE_ACCESSORS = False
+
+    def __exit__(self, *a):
+        global INLINE_ACCESSORS
+        INLINE_ACCESSORS = self.prev
+
+
+def _inline_self_accessor(fn, callee_id, args, depth):
+    """A call to a *local method that takes nothing but `self` and has straight-line code* (a private accessor such as
+    `fn latest_stored_block_number(&self) -> Option<u64> { self.cache.keys().next_back().copied() }`) is read as the
+    expression it returns, with `self` substituted: extracting such an accessor, or inlining one, leaves every origin term
+    unchanged.  Methods with control flow, with further parameters, trait methods and constructors are left as calls."""
+    if not INLINE_ACCESSORS or callee_id is None or depth > 30 or len(args) != 1:
+        return None
+    F = getattr(fn, "facts", None)
+    if F is None:
+        return None
+    g = F.fns.get(callee_id)
+    if g is None or not g.blocks or g.kind != "method" or g.j.get("trait") or g.j.get("in_trait") or g.id == fn.id:
+        return None
+    if (g.j.get("param_names") or [None])[0] != "self" or g.j["mir"]["argc"] != 1:
+        return None
+    key = g.id
+    if key not in _ACCESSOR_TERMS:
+        _ACCESSOR_TERMS[key] = None
+        straight = all(b["term"]["k"] in ("call", "goto", "return", "drop", "assert", "unreachable", "resume", "false_edge", "false_unwind")
+                       or b.get("cleanup") for b in g.blocks)
+        # a value that is built by mutation through a `&mut` borrow (let mut v = Vec::new(); fill(&mut v); v) is not described by
+        # its origin term: skip when the returned local itself was mutably borrowed
+        mb = {st["rv"]["place"]["l"] for b in g.blocks for st in b["stmts"]
+              if st["k"] == "assign" and st["rv"]["k"] == "ref" and st["rv"].get("mut") and not st["rv"]["place"].get("p")}
+        root = 0
+        for _ in range(8):
+            ds = [d for d in g.defs().get(root, []) if d[2] == "assign"]
+            if len(ds) == 1 and ds[0][3]["rv"]["k"] == "use" and "l" in ds[0][3]["rv"]["ops"][0] and not ds[0][3]["rv"]["ops"][0].get("p"):
+                root = ds[0][3]["rv"]["ops"][0]["l"]
+            else:
+                break
+        mut_borrow = root in mb or 0 in mb
+        if straight and not mut_borrow and len(g.blocks) <= 12:
+            rv = origin(g, {"l": 0, "k": "copy"}, 0, None, 30)
+            if rv[0] not in ("unknown", "phi", "loop"):
+                _ACCESSOR_TERMS[key] = rv
+    rv = _ACCESSOR_TERMS[key]
+    if rv is None:
+        return None
+    return subst_params(rv, args)
 
 
 def rvalue_origin(fn, rv, depth, seen, maxdepth):
